@@ -271,6 +271,141 @@ def check_e2e(ctx, cases):
                     'valid_for_universe': o.get('valid')}, cap=6)
 
 
+# ------------------------------------------------------------------ wildcards of two schema documents (different target namespaces)
+ANS = 'urn:a'
+
+
+def form_set_tns(f, tns):
+    kind, val = f
+    def tok(t):
+        return '' if t == '##local' else tns if t == '##targetNamespace' else t
+    res = []
+    for u in UNIVERSE:
+        if kind == 'not':
+            res.append(u not in [tok(t) for t in val.split()])
+        elif val == '##any':
+            res.append(True)
+        elif val == '##other':
+            res.append(u not in ('', tns))
+        else:
+            res.append(u in [tok(t) for t in val.split()])
+    return res
+
+
+def form_coq_tns(f, tns):
+    kind, val = f
+    def code(t):
+        return INTERN['' if t == '##local' else tns if t == '##targetNamespace' else t]
+    if kind == 'not':
+        sh = 'SNot %s' % coq_list([coq_N(code(t)) for t in val.split()])
+    elif val == '##any':
+        sh = 'SAny'
+    elif val == '##other':
+        sh = 'SOther'
+    else:
+        sh = 'SList %s' % coq_list([coq_N(code(t)) for t in val.split()])
+    return '{| sh := %s; wtns := %s |}' % (sh, coq_N(INTERN[tns]))
+
+
+_CROSS = {}
+
+
+def subject_cross(case):
+    import xmlschema
+    version = case['version']
+    if version not in _CROSS:
+        cls = xmlschema.XMLSchema11 if version == '1.1' else xmlschema.XMLSchema10
+        _CROSS[version] = cls(schema_text(version, forms(version == '1.1')).replace(TNS, ANS))
+    a = get_wild(version, case['i'], 'elem')
+    b = _CROSS[version].types['w%d' % case['j']].content[0]
+    out = {}
+    try:
+        out['ab'] = bool(a.is_overlap(b))
+        out['ba'] = bool(b.is_overlap(a))
+    except Exception as e:  # noqa
+        out['exc'] = common.exc_class(e)
+    return out
+
+
+def check_cross(ctx, cases):
+    impl = common.pool_map(subject_cross, cases)
+    terms = []
+    for c in cases:
+        fs = forms(c['version'] == '1.1')
+        a, b = form_coq_tns(fs[c['i']], TNS), form_coq_tns(fs[c['j']], ANS)
+        terms.append('(is_overlap %s %s, is_overlap %s %s)' % (a, b, b, a))
+    model = common.coq_eval('C16c', IMPORTS, '', terms)
+    for c, o, m in zip(cases, impl, model):
+        fs = forms(c['version'] == '1.1')
+        fa, fb = fs[c['i']], fs[c['j']]
+        base = dict(c, fa=form_attr(fa), fb=form_attr(fb), kind='cross', impl=o)
+        ctx.count(('cross', c['version'], c['i'], c['j']), nontrivial=True)
+        if 'harness_exception' in o or 'exc' in o:
+            ctx.violation('is_overlap failed: %s' % (o.get('exc') or o['harness_exception']), base, no_input=True)
+            continue
+        inter = any(x and y for x, y in zip(form_set_tns(fa, TNS), form_set_tns(fb, ANS)))
+        problems = []
+        for name, v in (('a.is_overlap(b)', o['ab']), ('b.is_overlap(a)', o['ba'])):
+            if v != inter:
+                problems.append(('primary', '%s=%s but the sets %s on the universe' % (name, v, 'intersect' if inter else 'are disjoint')))
+        if (o['ab'], o['ba']) != tuple(m):
+            problems.append(('aux', 'model/implementation differ on overlap: impl=%s model=%s' % ((o['ab'], o['ba']), m)))
+        if problems:
+            prim = [p for p in problems if p[0] == 'primary']
+            ctx.violation('element wildcards %s (target namespace %s) and %s (target namespace %s), XSD %s: %s'
+                          % (base['fa'], TNS, base['fb'], ANS, c['version'], '; '.join(p[1] for p in (prim or problems))),
+                          dict(base, theorem='C16_overlap_iff'), no_input=not prim)
+
+
+# ------------------------------------------------------------------ an attribute group shared by two types
+QFORMS = ['namespace="##any"', 'namespace="##other"', 'notNamespace="urn:a"', 'notNamespace="urn:a" notQName="t:b"',
+          'notNamespace="##local" notQName="t:c"', 'namespace="##any" notQName="t:b"', 'notQName="t:b ##defined"']
+PROBES = [('t:b', TNS), ('t:c', TNS), ('t:zz', TNS), ('a:x', 'urn:a'), ('b:x', 'urn:b'), ('x', '')]
+
+
+def alias_schema(g, local, with_user):
+    user = ('<xs:complexType name="user"><xs:attributeGroup ref="t:g"/><xs:anyAttribute %s processContents="skip"/></xs:complexType>'
+            '<xs:element name="u" type="t:user"/>' % local) if with_user else ''
+    return ('<xs:schema xmlns:xs="http://www.w3.org/2001/XMLSchema" targetNamespace="%s" xmlns:t="%s">'
+            '<xs:attribute name="b" type="xs:string"/><xs:attribute name="c" type="xs:string"/>'
+            '<xs:attributeGroup name="g"><xs:anyAttribute %s processContents="skip"/></xs:attributeGroup>%s'
+            '<xs:complexType name="alone"><xs:attributeGroup ref="t:g"/></xs:complexType>'
+            '<xs:element name="r" type="t:alone"/></xs:schema>' % (TNS, TNS, g, user))
+
+
+def subject_alias(case):
+    import xmlschema
+    out = {}
+    for with_user in (False, True):
+        try:
+            s = xmlschema.XMLSchema11(alias_schema(case['g'], case['local'], with_user))
+        except Exception as e:  # noqa
+            out[str(with_user)] = 'ERR:' + common.exc_class(e)
+            continue
+        res = []
+        for name, ns in PROBES:
+            decl = ' xmlns:%s="%s"' % (name.split(':')[0], ns) if ':' in name and not name.startswith('t:') else ''
+            res.append(bool(s.is_valid('<t:r xmlns:t="%s"%s %s="1"/>' % (TNS, decl, name))))
+        out[str(with_user)] = res
+    return out
+
+
+def check_alias(ctx, cases):
+    impl = common.pool_map(subject_alias, cases)
+    for c, o in zip(cases, impl):
+        base = dict(c, kind='alias', impl=o, xsd=alias_schema(c['g'], c['local'], True))
+        ctx.count(('alias', c['g'], c['local']), nontrivial=c['g'] != c['local'])
+        if 'harness_exception' in o:
+            ctx.violation('subject failed: %s' % o['harness_exception'], base, no_input=True)
+            continue
+        if isinstance(o['False'], str) or isinstance(o['True'], str):
+            continue    # a combination the schema class refuses: not judged
+        if o['False'] != o['True']:
+            ctx.violation('the wildcard of an attribute group (%s) admits %s when the group is used by one type only, and %s '
+                          'once another type combines the group with its own wildcard (%s): a combination must not change its operands'
+                          % (c['g'], dict(zip([p[0] for p in PROBES], o['False'])), dict(zip([p[0] for p in PROBES], o['True'])), c['local']), base)
+
+
 def run(ctx):
     cases, e2e = [], []
     for version in ('1.0', '1.1'):
@@ -295,15 +430,24 @@ def run(ctx):
                 '(%s)' % ('sampled' if ctx.quick() else 'exhaustive'))
     check_pairs(ctx, cases)
     check_e2e(ctx, e2e)
+    cross = [{'version': v, 'i': i, 'j': j} for v in ('1.0', '1.1') for i in range(len(forms(v == '1.1'))) for j in range(len(forms(v == '1.1')))]
+    check_cross(ctx, cross)
+    check_alias(ctx, [{'g': g, 'local': l} for g in QFORMS for l in QFORMS])
+    ctx.extra['cross_namespace_pairs'] = len(cross)
     ctx.extra['component_pairs'] = len(cases)
     ctx.extra['end_to_end_schemas'] = len(e2e)
-    ctx.assumptions = ['same target namespace for both wildcards (theorem hypothesis wtns a = wtns b); '
-                       'cross-namespace pairs are not claimed', 'notQName / ##defined not modelled yet',
+    ctx.assumptions = ['union / intersection / restriction: same target namespace for both wildcards; overlap is also checked for '
+                       'wildcards of two schema documents with different target namespaces',
+                       'notQName / ##defined are not modelled: they are exercised by the metamorphic shared-group family only',
                        'the XSI namespace is excluded from the universe (positive forms always admit it)']
 
 
 def replay(ctx, case):
-    if case.get('kind') == 'e2e':
+    if case.get('kind') == 'cross':
+        check_cross(ctx, [{k: case[k] for k in ('version', 'i', 'j')}])
+    elif case.get('kind') == 'alias':
+        check_alias(ctx, [{k: case[k] for k in ('g', 'local')}])
+    elif case.get('kind') == 'e2e':
         check_e2e(ctx, [{k: case[k] for k in ('version', 'mode', 'i', 'j')}])
     else:
         check_pairs(ctx, [{k: case[k] for k in ('version', 'kind', 'i', 'j')}])
